@@ -3,7 +3,7 @@
 # each patch applies alone to a clean tree, the library builds, the whole test suite passes, and the demonstration
 # (built with the command recorded in demoK.txt) shows the violation.  Results: /tmp/seed/out-<ID>/confirmK.log
 ID="$1"; W=/tmp/seed/wt-$ID; O=/tmp/seed/out-$ID
-for K in 1 2; do
+for K in ${KS:-1 2}; do
   [ -f $O/change$K.diff ] || continue
   L=$O/confirm$K.log; : > $L
   git -C $W checkout -- . ; git -C $W clean -fdq -e _build
@@ -29,7 +29,7 @@ for K in 1 2; do
 done
 # before: clean tree
 cmake --build $W/_build >/dev/null 2>&1
-for K in 1 2; do
+for K in ${KS:-1 2}; do
   [ -f $O/change$K.diff ] || continue
   L=$O/confirm$K.log; cd $O
   D=$(ls demo$K.c demo$K.py 2>/dev/null | head -1)
